@@ -54,34 +54,44 @@ example : serve true [wSecret] (some wBracketed) wBracketed = .handler (some 0) 
 -- with a port the two computations agree and the request is refused
 example : serve true [wSecret] (some wBracketed) (wBracketed ++ [58, 52, 52, 51]) = .misdirected := by decide
 
-/-! ### strict SNI-Host (EqualFold) does not bind the TLS policy (ToLower) for the SNI `ſecret.test` -/
+/-! ### regression: before 110cdf0 strict SNI-Host (EqualFold alone) did not bind the TLS policy (ToLower) for the SNI `ſecret.test` -/
 
 def wLongSecret : Bytes := symLongS :: [101, 99, 114, 101, 116, 46, 116, 101, 115, 116]   -- "ſecret.test"
 
 /-- a client-auth policy for `secret.test`, then a catch-all without client auth -/
 def wPolicies : List Policy := [⟨[.sni [wSecret]], false, true⟩, ⟨[], false, false⟩]
 
-/-- negation of the full statement kept in `Props.strict_binds_policy_name_partial` -/
-theorem strict_unicode_fold_full_fails :
+/-- `serve` as it was before /repo commit 110cdf0: the strict check is `EqualFold` alone -/
+def serveOld (strict : Bool) (sites : List Bytes) (tlsSNI : Option Bytes) (host : Bytes) : Served :=
+  match tlsSNI with
+  | none => .handler (route sites host)
+  | some sni =>
+    if strict && !equalFold sni (enforcementHost host) then .misdirected
+    else .handler (route sites host)
+
+/-- the old check did not bind the routed site to a name that selects the SNI's policies … -/
+theorem strict_unicode_fold_old_code_fails :
     ¬ ∀ (sites : List Bytes) (sni host : Bytes) (k : Nat), noBrackets sni = true →
-        serve true sites (some sni) host = .handler (some k) →
+        serveOld true sites (some sni) host = .handler (some k) →
         ∃ site, sites[k]? = some site ∧ namesSameHost sni site := by
   intro hall
   obtain ⟨site, h1, h2⟩ := hall [wSecret] wLongSecret wSecret 0 (by decide) (by decide)
   simp at h1; subst h1
   revert h2; decide
 
-/-- negation of the no-bypass clause: strict SNI-Host is on by default (client-auth policy present),
+/-- … so the no-bypass clause failed: strict SNI-Host on by default (client-auth policy present),
     the connection with SNI `ſecret.test` gets the catch-all policy 1, and its request with
-    `Host: secret.test` is routed to the site whose own name gets the client-auth policy 0. -/
-theorem client_auth_not_bypassed_full_fails :
+    `Host: secret.test` was routed to the site whose own name gets the client-auth policy 0. -/
+theorem client_auth_not_bypassed_old_code_fails :
     ∃ (ps : List Policy) (sites : List Bytes) (sni host site : Bytes) (v : Nat → Bool) (k : Nat),
       (∃ p ∈ ps, p.clientAuth = true) ∧ noBrackets sni = true ∧ (∀ s ∈ sites, isAscii s = true) ∧
-      serve (effectiveStrict none ps) sites (some sni) host = .handler (some k) ∧
+      serveOld (effectiveStrict none ps) sites (some sni) host = .handler (some k) ∧
       sites[k]? = some site ∧ choose false ps ⟨sni, v⟩ ≠ choose false ps ⟨site, v⟩ :=
   ⟨wPolicies, [wSecret], wLongSecret, wSecret, wSecret, fun _ => false, 0,
     ⟨_, List.mem_cons_self .., rfl⟩, by decide, by decide, by decide, by decide, by decide⟩
 
+-- the code as it is now refuses the same request
+example : serve (effectiveStrict none wPolicies) [wSecret] (some wLongSecret) wSecret = .misdirected := by decide
 example : choose false wPolicies ⟨wLongSecret, fun _ => false⟩ = .config 1 := by decide
 example : choose false wPolicies ⟨wSecret, fun _ => false⟩ = .config 0 := by decide
 example : isAscii wLongSecret = false := by decide
@@ -114,10 +124,6 @@ theorem swallowed_ca_load_error :
 def witnessLines : List String := [
   "C19 pol 0 -/~/~;-/612e74657374/~;-/7a7a2e74657374/~;-/7a7a2e74657374/~;-/7a7a2e74657374/~;-/7a7a2e74657374/~;-/7a7a2e74657374/~;-/7a7a2e74657374/~;-/7a7a2e74657374/~;-/7a7a2e74657374/~;-/7a7a2e74657374/~;-/7a7a2e74657374/~;-/7a7a2e74657374/~;-/7a7a2e74657374/~;-/7a7a2e74657374/~;-/7a7a2e74657374/~;-/7a7a2e74657374/~;-/7a7a2e74657374/~;-/7a7a2e74657374/~;-/7a7a2e74657374/~;-/7a7a2e74657374/~;-/7a7a2e74657374/~;-/7a7a2e74657374/~;-/7a7a2e74657374/~;-/7a7a2e74657374/~;-/7a7a2e74657374/~;-/7a7a2e74657374/~;-/7a7a2e74657374/~;-/7a7a2e74657374/~;-/7a7a2e74657374/~;-/7a7a2e74657374/~ 612e74657374/0/6/1000011010111110",
   "C19 enf t . 7365637265742e74657374 1/5b7365637265742e746573745d/5b7365637265742e746573745d",
-  -- `wPolicies`, site secret.test, SNI ſecret.test, Host secret.test (known finding); then the same
-  -- through a real handshake against e2e server 0 (completes under the catch-all policy 1)
-  "C19 enf n C/7365637265742e74657374/~;-/~/~ 7365637265742e74657374 1/c5bf65637265742e74657374/7365637265742e74657374",
-  "C19 e2e 0 p1 c5bf65637265742e74657374 7365637265742e74657374",
   -- verifier-only block (Active() flips with provisioning) and a CA file that does not load
   "C19 ca 1000010",
   "C19 ca 1002000"
